@@ -1,5 +1,7 @@
 mod core;
 mod crash;
+mod e3;
+mod sched;
 mod par;
 mod explore;
 mod props;
@@ -50,6 +52,7 @@ fn main() {
                     world::install_seq_hooks();
                     props::c02::run(tier)
                 }
+                "C14" => props::c14::run(tier),
                 other => {
                     eprintln!("unknown property {other}");
                     2
@@ -90,6 +93,7 @@ fn main() {
                     world::install_seq_hooks();
                     props::c02::replay(&v)
                 }
+                "C14" => props::c14::replay(&v),
                 other => {
                     eprintln!("unknown property {other}");
                     2
@@ -98,6 +102,10 @@ fn main() {
             explore::cleanup_scratch();
             r
         }
+        "e3shard" => e3::shard_main(&args[2..], &|prop, tier| match prop {
+            "C14" => props::c14::bodies(tier),
+            _ => vec![],
+        }),
         "drv" => {
             world::install_seq_hooks();
             shimrun::driver_main(&args[2..])
